@@ -37,6 +37,7 @@ ASSUMPTIONS = [
 EXHAUSTIVE_NOTE = "all words over the 7-operation alphabet up to the depth bound; all fault positions 0..n for n in 1..5; failpoints at the 1st/2nd/3rd/5th call of 9 internal functions during an update"
 QUICK_SHARDS = 4
 ALPHABET = "ABCEDRO"
+_STATES = set()
 COLS = ("seqid", "source", "featuretype", "start", "end", "score", "strand", "frame")
 
 
@@ -303,6 +304,10 @@ def history(ctx, case):
                 return
             after = dbdump.dump(dbfn)
             ctx.mon("content dumps compared with the model")
+            st = (tuple(sorted(f["id"] for f in after["features"])), tuple(map(tuple, after["relations"])))
+            if st not in _STATES:
+                _STATES.add(st)
+                ctx.mon("distinct database states (feature ids x relation rows) reached")
             d = model.compare(after)
             if d:
                 ctx.violation(case, dict(d, step=step, trace=trace, base=text))
